@@ -331,12 +331,16 @@ impl ActorCell {
     ///
     /// Returns the status observed immediately before the update.
     pub(crate) fn set_status(&self, status: ActorStatus) -> ActorStatus {
+        #[cfg(feature = "verif")]
+        crate::verif::point("status.publish");
         let previous_status = self.inner.set_status(status);
 
         // The actor is shut down — only run cleanup once, on the first transition
         // to Stopping. Publish the new status before cleanup so concurrent PG
         // registrations cannot be added after the reverse indexes are drained.
         if status >= ActorStatus::Stopping && previous_status < ActorStatus::Stopping {
+            #[cfg(feature = "verif")]
+            crate::verif::point("status.unreg_pid");
             #[cfg(feature = "cluster")]
             {
                 // stop monitoring for updates
@@ -344,18 +348,26 @@ impl ActorCell {
                 // unregistry from the PID registry
                 crate::registry::pid_registry::unregister_pid(self.get_id());
             }
+            #[cfg(feature = "verif")]
+            crate::verif::point("status.unreg_name");
             // If it's enrolled in the registry, remove it
             if let Some(name) = self.get_name() {
                 crate::registry::unregister(name);
             }
+            #[cfg(feature = "verif")]
+            crate::verif::point("status.pg_demonitor");
             // Leave all + stop monitoring pg groups (if any)
             crate::pg::demonitor_all(self.get_id());
+            #[cfg(feature = "verif")]
+            crate::verif::point("status.pg_leave");
             crate::pg::leave_all(self.get_id());
         }
 
         // Fix for #254. We should only notify the stop listener AFTER post_stop
         // has executed, which is when the state gets set to `Stopped`.
         if status == ActorStatus::Stopped && previous_status < ActorStatus::Stopped {
+            #[cfg(feature = "verif")]
+            crate::verif::point("status.notify");
             // notify whoever might be waiting on the stop signal
             self.inner.notify_stop_listener();
         }
@@ -682,6 +694,20 @@ impl ActorCell {
         startup_args: T::Arguments,
     ) -> Result<(ActorRef<T::Msg>, JoinHandle<()>), SpawnErr> {
         crate::actor::ActorRuntime::spawn_linked(name, handler, startup_args, self.clone()).await
+    }
+
+    // ================== Verification hooks ================== //
+
+    /// Number of linked children (verification hook)
+    #[cfg(feature = "verif")]
+    pub fn verif_num_children(&self) -> usize {
+        self.inner.tree.get_children().len()
+    }
+
+    /// Raw admission word `(closed, marker_sent, count)` (verification hook)
+    #[cfg(feature = "verif")]
+    pub fn verif_admission_word(&self) -> (bool, bool, usize) {
+        self.inner.verif_admission_word()
     }
 
     // ================== Test Utilities ================== //
